@@ -1,6 +1,7 @@
 //! Correspondence harness: runs the implementation on generated cases and prints one case
 //! line per case ("<channel> key=value ...") for the model driver.
 mod art;
+mod cli;
 mod flags;
 mod probe;
 mod util;
@@ -21,6 +22,15 @@ fn main() {
         eprintln!("usage: harness <channel> [--seed S] [--count N] [--maxn N] [--mode M] [--out FILE]");
         std::process::exit(2);
     }
+    if args[1] == "cli-exec" {
+        // child mode: run one CLI command of the real `webgraph` tool
+        let mut a: Vec<String> = vec!["webgraph".to_string()];
+        a.extend(args[2..].iter().cloned());
+        match webgraph_cli::cli_main(a) {
+            Ok(()) => std::process::exit(0),
+            Err(e) => { eprintln!("{e:#}"); std::process::exit(1) }
+        }
+    }
     // silence the default panic message: panics are caught per case and reported
     std::panic::set_hook(Box::new(|_| {}));
     let seed: u64 = arg(&args, "--seed", "1").parse().unwrap();
@@ -37,6 +47,7 @@ fn main() {
         "art" => art::run(seed, count, maxn, &mode, &mut out),
         "flags" => flags::run(seed, count, &mut out),
         "probe" => probe::run(&mode),
+        "cli" => cli::run(seed, count, maxn, &mut out),
         other => {
             eprintln!("unknown channel {other}");
             std::process::exit(2);
